@@ -76,7 +76,7 @@ manifest = {
     'names the contradiction (DESIGN.md 7.12, 7.14). '
     'Thorough tier = quick tier + in-memory variant matrix: the property\'s own mutants, the confirmed breaking changes of /verif/seeded for that property, '
     'every committed behaviour-preserving rewrite of /verif/refactorings that touches a file of the property, and 20 whole-package behaviour-preserving '
-    'variants; it takes 2-10 minutes on 16 cores. tools/score.py replays all 684 refactorings and all 160 seeded changes against all twenty properties (19 minutes).',
+    'variants; it takes 2-10 minutes on 16 cores. tools/score.py replays all 684 refactorings and all 180 seeded changes against all twenty properties (19 minutes; `--props` restricts it to the rule sets that changed).',
 }
 with open(os.path.join(HERE, 'MANIFEST.json'), 'w') as f:
     json.dump(manifest, f, indent=1)
